@@ -139,6 +139,54 @@ def check_linear_mutant(c, p):
     return None
 
 
+def step_stratum(ctx, w, kind):
+    """the same relations through the GP operator steps: GenericMutationStep yields, at position i, input i itself or a
+    one-gene mutant of input i; GenericCrossoverStep yields the pair (j, j+1) itself or its locus-wise children"""
+    from geneticengine.algorithms.gp.operators.crossover import GenericCrossoverStep
+    from geneticengine.algorithms.gp.operators.mutation import GenericMutationStep
+    from geneticengine.evaluation.sequential import SequentialEvaluator
+    from geneticengine.problems import SingleObjectiveProblem
+    from geneticengine.solutions.individual import Individual
+
+    H = ctx.H
+    n = 2 + H.draw(min(len(w.pool), 8) - 1)
+    inds = [Individual(w.pool[H.draw(len(w.pool))], w.rep) for _ in range(n)]
+    problem = SingleObjectiveProblem(lambda p: 0.0)
+    p = H.pick([0.0, 0.3, 0.5, 0.9, 1.0])
+    which = H.pick(["mutation", "crossover"])
+    step = GenericMutationStep(p) if which == "mutation" else GenericCrossoverStep(p)
+    w.install_flaky()
+    w.random.reset_cap()
+    try:
+        out = list(step.apply(problem, SequentialEvaluator(), w.rep, w.random, list(inds), n, 1))
+    except Exception:
+        ctx.stat("foreign_failure:step")
+        return
+    ctx.stat("steps_related")
+    ctx.nontrivial = True
+    if which == "mutation":
+        for i, (o, src) in enumerate(zip(out, inds)):
+            if o is src:
+                continue
+            cause = check_linear_mutant(keyed(o.genotype, kind), keyed(src.genotype, kind))
+            if cause:
+                ctx.violate(f"C06/{kind}-mutation-step/{cause}", f"GenericMutationStep({p}) output #{i} is not input #{i} nor a one-gene mutant of it: {cause}")
+                return
+    else:
+        for i in range(0, len(out) - 1, 2):
+            j = (i // 2) % len(inds)
+            if j + 1 >= len(inds):
+                break
+            a, b = inds[j], inds[j + 1]
+            for o in (out[i], out[i + 1]):
+                if o is a or o is b:
+                    continue
+                cause = check_linear_child(keyed(o.genotype, kind), keyed(a.genotype, kind), keyed(b.genotype, kind))
+                if cause:
+                    ctx.violate(f"C06/{kind}-crossover-step/{cause}", f"GenericCrossoverStep({p}) output #{i} is neither parent #{j}/#{j + 1} nor a locus-wise child of them: {cause}")
+                    return
+
+
 def run(ctx):
     H = ctx.H
     w = SynthWorld(ctx, feat=FEAT)
@@ -201,5 +249,7 @@ def run(ctx):
                     ctx.violate(f"C06/{kind}-mutation/{cause}", f"{kind} mutation: {cause}")
                 if kind == "dsge":
                     w.op_map(res.new[0])
+        if kind != "tree" and len(w.pool) >= 2 and H.draw(2):
+            step_stratum(ctx, w, kind)
     finally:
         w.dispose()
